@@ -175,3 +175,15 @@ package annotations
 //@   pure
 //@   requires config != nil
 //@   ensures iff: (err == nil) <==> spec.OneofRule(message, oneof, config.Discriminator, config.Flatten)
+
+// ---- header merge (C15 determinism, C09/C18 parameter lists) ----
+
+//@ func CombineHeaders(serviceHeaders []*sebufhttp.Header, methodHeaders []*sebufhttp.Header) (r []*sebufhttp.Header)
+//@   ensures svc_empty: len(serviceHeaders) == 0 ==> r == methodHeaders
+//@   ensures mth_empty: len(serviceHeaders) > 0 && len(methodHeaders) == 0 ==> r == serviceHeaders
+//@   ensures sorted: len(serviceHeaders) > 0 && len(methodHeaders) > 0 ==> (forall i int, j int :: 0 <= i && i < j && j < len(r) ==> !strLess(r[j].GetName(), r[i].GetName()))
+//@   ensures from_inputs: len(serviceHeaders) > 0 && len(methodHeaders) > 0 ==> (forall k int :: 0 <= k && k < len(r) ==> r[k].GetName() != "" && (member(serviceHeaders, r[k]) || member(methodHeaders, r[k])))
+//@   loop 1 invariant forall s string :: inDom(headerMap, s) ==> headerMap[s].GetName() == s && s != "" && member(serviceHeaders, headerMap[s])
+//@   loop 2 invariant forall s string :: inDom(headerMap, s) ==> headerMap[s].GetName() == s && s != "" && (member(serviceHeaders, headerMap[s]) || member(methodHeaders, headerMap[s]))
+//@   loop 3 invariant forall i int :: 0 <= i && i < len(headerNames) ==> inDom(headerMap, headerNames[i])
+//@   loop 4 invariant len(result) == _i && (forall k int :: 0 <= k && k < len(result) ==> result[k] == headerMap[headerNames[k]])
